@@ -32,12 +32,18 @@
     NOT proved: the converse for 5.3.1 / 5.3.3 (valid -> the field visitor is silent), the equivalences
     for 5.2.3.1 (subscription root), 5.3.2 (FieldsInSetCanMerge / SameResponseShape), 5.5.2 (spreads against the Spec's formulation), 5.8
     (variables against the Spec's formulation), hence validate_verdict itself; that no secondary error
-    is ever emitted without a primary one (secondary_never_alone); validate_error_located.  These are
+    is ever emitted without a primary one (secondary_never_alone:
+      validate_model repaired pi S F D = Done errs -> In e errs -> e_sec e = true -> False;
+    proved for the part of the pipeline the secondary errors hang on — without a primary error
+    every field occurrence is defined on a composite parent, every fragment is declared once on a
+    composite type, and the field visitor, the fragment-declaration rule, the directive rule and the
+    whole spread rule incl. the cycle search are silent: C04_secondary_never_alone_partial; open:
+    arguments, values, variables, operations, the overlapping-fields pass); validate_error_located.  These are
     covered on every run by the correspondence check and the Spec oracle only. *)
 From Coq Require Import List NArith.
 From ApiFu Require Import Base.Sexp Vld.Ast Vld.Inspect Vld.InspectProofs Vld.TypeInfoModel Vld.TypeInfoPure Vld.ValidatorModel Vld.ValidSpec
      Vld.Hyps Vld.ProofsCommon Vld.ProofsDirectives Vld.ProofsArguments Vld.ProofsFragDecl Vld.ProofsValues
-     Vld.ProofsCycles Vld.ProofsVarsOrder Vld.ProofsOrder Vld.ProofsOperations Vld.ProofsTotal Vld.Enumerate Vld.ProofsFields Vld.ProofsMemo Vld.ValidatorProofs Vld.ProofsSpreads Vld.ProofsDepth Vld.ProofsDepthRule Vld.MemoTransfer Vld.ProofsMemoConverse Vld.MemoEquiv Vld.ProofsTypeInfoValues Vld.Witness.
+     Vld.ProofsCycles Vld.ProofsVarsOrder Vld.ProofsOrder Vld.ProofsOperations Vld.ProofsTotal Vld.Enumerate Vld.ProofsFields Vld.ProofsMemo Vld.ValidatorProofs Vld.ProofsSpreads Vld.ProofsSecondary Vld.ProofsDepth Vld.ProofsDepthRule Vld.MemoTransfer Vld.ProofsMemoConverse Vld.MemoEquiv Vld.ProofsTypeInfoValues Vld.Witness.
 Import ListNotations.
 
 (** ** determinism: acceptance is a function of schema, features and document alone *)
@@ -133,6 +139,21 @@ Theorem C04_memo_verdict_deterministic : forall pi1 pi2 S F D,
   (validate_model_memo repaired pi1 S F D = Done [] /\ validate_model_memo repaired pi2 S F D = Done []) \/
   (exists e1 l1 e2 l2, validate_model_memo repaired pi1 S F D = Done (e1 :: l1) /\ validate_model_memo repaired pi2 S F D = Done (e2 :: l2)).
 Proof. exact validate_memo_verdict_order. Qed.
+(** the same with the hypothesis on the document as parsed: NewTypeInfo does not touch positions
+    ([field_positions D]: the positions of the field selections written in D, selection set by
+    selection set) — dischargeable from C06_parse_pos_injective through the Syn -> Vld conversion *)
+Theorem C04_field_positions_of_annotated : forall qo S F D,
+  field_positions_distinct (pti_doc qo S F D) <-> doc_field_positions_distinct D.
+Proof. exact field_positions_distinct_pti. Qed.
+Theorem C04_memo_equiv_parsed : forall pi S F D,
+  order_ok pi -> doc_field_positions_distinct D ->
+  (validate_model_memo repaired pi S F D = Done [] <-> validate_model repaired pi S F D = Done []).
+Proof. exact validate_memo_iff_parsed. Qed.
+Theorem C04_memo_accept_deterministic_parsed : forall pi1 pi2 S F D,
+  order_ok pi1 -> order_ok pi2 -> doc_field_positions_distinct D ->
+  (validate_model_memo repaired pi1 S F D = Done [] <-> validate_model_memo repaired pi2 S F D = Done []).
+Proof. exact validate_memo_accept_order_parsed. Qed.
+
 (** the rule-level statement, for any quirks: a silent memoised overlapping-fields pass implies a
     silent plain one, given the depth bound for the collected fields *)
 Theorem C04_memo_never_hides_a_conflict : forall pi, order_ok pi -> forall q S D,
@@ -194,6 +215,40 @@ Proof. exact filter_primary_nil. Qed.
 Theorem C04_filter_secondary_only_without_primary : forall errs e,
   In e (filter_primary errs) -> e_sec e = true -> forall e', In e' errs -> e_sec e' = true.
 Proof. exact filter_primary_secondary. Qed.
+
+(** ** secondary errors (partial)
+    [all_rules] is the pipeline before the primary / secondary filter, run on the annotated document
+    NewTypeInfo produces.  If its result has no primary error, then every field occurrence of every
+    definition sits on a composite, defined parent type ([good]) and four of the eight rule groups
+    (first field visitor, fragment declarations, directives, fragment spreads with the cycle search)
+    reported nothing at all — so none of the secondary errors of these groups (field of unknown
+    parent, unknown spread target inside an undefined scope, ...) survives the filter alone.
+    [valid_root] is a premise here (its failure is the primary error EOpUnsupported of the
+    operations group, not yet connected). *)
+Theorem C04_secondary_never_alone_partial : forall pi S F D errs,
+  order_ok pi -> schema_ok S = true -> valid_root S D = true ->
+  all_rules repaired pi S F (pti_doc (q_unwrap_obj repaired) S F D) = Done errs -> primary errs = [] ->
+  (forall d o, In d D -> In o (ssels_ss S F (model_def_scope S F d) (def_sub d)) -> good S (fst o)) /\
+  r_errs (inspect (fields_enter S F) pop (tree_doc (pti_doc (q_unwrap_obj repaired) S F D)) rst0) = [] /\
+  rule_fragment_declarations pi S F (pti_doc (q_unwrap_obj repaired) S F D) = [] /\
+  rule_directives repaired S (pti_doc (q_unwrap_obj repaired) S F D) = Done [] /\
+  rule_fragment_spreads repaired pi S F (pti_doc (q_unwrap_obj repaired) S F D) = Done [].
+Proof. exact no_primary_then_silent. Qed.
+
+(** ** what C01's [doc_ok] takes from validation (C01 Properties header, INTERFACE TO C04)
+    (a) type conditions composite: valid_5_5_1;  (b) @skip/@include conditions, literal half:
+    valid_5_7 and valid_5_6 (the [if:] literal coerces to Boolean!) — the variable half
+    ("a variable used in a directive is declared Boolean") is C04_variables_rule_iff and is NOT yet
+    connected to the Spec's 5.8.5;  (c) the root type exists: valid_root;  (f) every field is
+    defined on the parent type of its selection set: fields_defined, valid_5_3_1.
+    (d) (e) (i-depth) are C01's own, (g) is C05's, (h) is [schema_ok]. *)
+Theorem C04_accepted_doc_ok_conjuncts : forall pi S F D,
+  order_ok pi -> schema_ok S = true -> validate_model_memo repaired pi S F D = Done [] ->
+  valid_5_5_1 S F D = true /\
+  (valid_5_7 S D = true /\ (values_typed_input S F D = true -> valid_5_6 S F D = true)) /\
+  valid_root S D = true /\
+  (fields_defined S F D = true /\ valid_5_3_1 S F D = true).
+Proof. exact accepted_doc_ok_conjuncts. Qed.
 
 (** ** rule groups against sections of the specification *)
 (** 5.7.1 – 5.7.3 (directives defined, in valid locations, unique per location): no hypothesis *)
@@ -353,6 +408,9 @@ Print Assumptions C04_spreads_silent_acyclic.
 Print Assumptions C04_memo_equiv.
 Print Assumptions C04_memo_accept_deterministic.
 Print Assumptions C04_memo_verdict_deterministic.
+Print Assumptions C04_field_positions_of_annotated.
+Print Assumptions C04_memo_equiv_parsed.
+Print Assumptions C04_memo_accept_deterministic_parsed.
 Print Assumptions C04_memo_never_hides_a_conflict.
 Print Assumptions C04_typeinfo_arguments.
 Print Assumptions C04_typeinfo_list_items.
@@ -363,6 +421,8 @@ Print Assumptions C04_accepted_iff_rules_silent.
 Print Assumptions C04_all_rules_silent.
 Print Assumptions C04_filter_nil.
 Print Assumptions C04_filter_secondary_only_without_primary.
+Print Assumptions C04_secondary_never_alone_partial.
+Print Assumptions C04_accepted_doc_ok_conjuncts.
 Print Assumptions C04_rule_directives_iff.
 Print Assumptions C04_rule_fragment_declarations_iff.
 Print Assumptions C04_rule_operations_iff_partial.
